@@ -213,6 +213,10 @@ class Opaque:
 NONE = None  # python None represents None
 
 
+class DontCare(Undecided):
+    """The outcome depends on something no property constrains (e.g. lexicographic order of two labels)."""
+
+
 class PyRaise(Exception):
     def __init__(self, name, node=None):
         Exception.__init__(self, name)
@@ -246,10 +250,14 @@ BUILTIN_EXC_PARENTS = {
 class State:
     """A weak order over declared atoms (name -> Lin).  rank[i] < rank[j]  <=>  atom_i < atom_j."""
 
-    def __init__(self, atoms: List[Tuple[str, Lin]], ranks: List[int]):
+    def __init__(self, atoms: List[Tuple[str, Lin]], ranks: List[int], side=()):
         self.atoms = atoms
         self.ranks = ranks
+        self.side = list(side)  # extra linear facts [(lin, strict)]: lin < 0 / lin <= 0
         self._pairs = {}
+        self._memo2 = {}
+        self._memo_signs = {}
+        self._cons = None
         for i, (_, a) in enumerate(atoms):
             for j, (_, b) in enumerate(atoms):
                 if i == j:
@@ -259,8 +267,73 @@ class State:
                 if k is not None and k not in self._pairs:
                     self._pairs[k] = (i, j, scale)
 
+    def signs(self, d: Lin) -> frozenset:
+        """The set of signs (-1, 0, 1) the linear form can take under this state (exact, Fourier-Motzkin)."""
+        s = self._pair_sign(d)
+        if s is not None:
+            return frozenset([s])
+        key = d.key()
+        if key in self._memo_signs:
+            return self._memo_signs[key]
+        if self._cons is None:
+            cons, eqs = order_constraints(self.atoms, self.ranks)
+            self._cons = (cons + self.side, eqs)
+        cons, eqs = self._cons
+        out = set()
+        if fm_feasible(cons + [(d, True)], eqs):
+            out.add(-1)
+        if fm_feasible(cons, eqs + [d]):
+            out.add(0)
+        if fm_feasible(cons + [(d.neg(), True)], eqs):
+            out.add(1)
+        res = frozenset(out)
+        self._memo_signs[key] = res
+        return res
+
     def sign(self, d: Lin) -> Optional[int]:
         """sign of a linear form under this state, or None if not decided."""
+        ss = self.signs(d)
+        if len(ss) == 1:
+            return next(iter(ss))
+        return None
+
+    def sign_old(self, d: Lin) -> Optional[int]:
+        if d.is_const():
+            return (d.const > 0) - (d.const < 0)
+        s = self._pair_sign(d)
+        if s is not None:
+            return s
+        # d = (atom_i - atom_j) + rest, rest again an atom difference (or constant): same signs add up
+        key = d.key()
+        if key in self._memo2:
+            return self._memo2[key]
+        res = None
+        n = len(self.atoms)
+        for i in range(n):
+            for j in range(n):
+                if i == j:
+                    continue
+                p = self.atoms[i][1] - self.atoms[j][1]
+                rest = d - p
+                if len(rest.coef) > 2:
+                    continue
+                s2 = self._pair_sign(rest) if not rest.is_const() else ((rest.const > 0) - (rest.const < 0))
+                if s2 is None:
+                    continue
+                s1 = (self.ranks[i] > self.ranks[j]) - (self.ranks[i] < self.ranks[j])
+                if s1 == 0:
+                    res = s2
+                elif s2 == 0 or s2 == s1:
+                    res = s1
+                else:
+                    continue
+                break
+            if res is not None:
+                break
+        self._memo2[key] = res
+        return res
+
+    def _pair_sign(self, d: Lin) -> Optional[int]:
         if d.is_const():
             return (d.const > 0) - (d.const < 0)
         k, scale = _direction(d)
@@ -351,20 +424,22 @@ def _partial_ok(groups, upto, cons):
     return True
 
 
-def feasible(atoms: List[Tuple[str, Lin]], ranks: List[int]) -> bool:
-    """Exact feasibility over Q of the weak order seen as linear constraints on the base variables
-    (Fourier-Motzkin; only needed when derived atoms such as 'e-s' are declared)."""
-    cons = []  # (Lin, strict)  meaning lin < 0 (strict) or lin <= 0
-    eqs = []
-    n = len(atoms)
-    order = sorted(range(n), key=lambda i: ranks[i])
+def order_constraints(atoms: List[Tuple[str, Lin]], ranks: List[int]):
+    """The weak order as linear constraints: (ineqs [(lin, strict)] meaning lin < 0 / lin <= 0, eqs [lin == 0])."""
+    cons, eqs = [], []
+    order = sorted(range(len(atoms)), key=lambda i: ranks[i])
     for a, b in zip(order, order[1:]):
         d = atoms[a][1] - atoms[b][1]
         if ranks[a] == ranks[b]:
             eqs.append(d)
         else:
             cons.append((d, True))
-    # substitute equalities
+    return cons, eqs
+
+
+def fm_feasible(cons, eqs) -> bool:
+    """Exact feasibility over Q of  {lin < 0 | lin <= 0} and {lin == 0}  by substitution + Fourier-Motzkin."""
+    cons = list(cons)
     eqs = list(eqs)
     while eqs:
         e = eqs.pop()
@@ -374,10 +449,9 @@ def feasible(atoms: List[Tuple[str, Lin]], ranks: List[int]) -> bool:
             continue
         v = sorted(e.coef)[0]
         c = e.coef[v]
-        # v = -(rest)/c
         rest = Lin({k: x for k, x in e.coef.items() if k != v}, e.const).scale(Fraction(-1) / c)
 
-        def sub(l):
+        def sub(l, v=v, rest=rest):
             if v not in l.coef:
                 return l
             f = l.coef[v]
@@ -385,28 +459,51 @@ def feasible(atoms: List[Tuple[str, Lin]], ranks: List[int]) -> bool:
             return base + rest.scale(f)
 
         eqs = [sub(x) for x in eqs]
-        cons = [(sub(l), s) for l, s in cons]
-    # FM elimination
-    vars_ = sorted({k for l, _ in cons for k in l.coef})
-    for v in vars_:
-        pos = [(l, s) for l, s in cons if l.coef.get(v, 0) > 0]
-        neg = [(l, s) for l, s in cons if l.coef.get(v, 0) < 0]
-        rest = [(l, s) for l, s in cons if l.coef.get(v, 0) == 0]
-        for lp, sp in pos:
-            for ln, sn in neg:
-                a = lp.scale(Fraction(1) / lp.coef[v])
-                b = ln.scale(Fraction(-1) / ln.coef[v])
-                rest.append((a + b, sp or sn))
-        cons = rest
-        if len(cons) > 4000:
-            return True  # give up pruning (sound: keeps the state)
-    for l, s in cons:
+        cons = [(sub(l), st) for l, st in cons]
+    # constant constraints
+    live = []
+    for l, st in cons:
         if l.is_const():
-            if s and not l.const < 0:
+            if (st and not l.const < 0) or (not st and not l.const <= 0):
                 return False
-            if not s and not l.const <= 0:
-                return False
+        else:
+            live.append((l, st))
+    cons = live
+    while cons:
+        # eliminate the variable with the fewest pos*neg combinations
+        counts = {}
+        for l, _ in cons:
+            for v, c in l.coef.items():
+                p, n = counts.get(v, (0, 0))
+                counts[v] = (p + (c > 0), n + (c < 0))
+        v = min(counts, key=lambda x: counts[x][0] * counts[x][1])
+        pos = [(l, st) for l, st in cons if l.coef.get(v, 0) > 0]
+        neg = [(l, st) for l, st in cons if l.coef.get(v, 0) < 0]
+        rest = [(l, st) for l, st in cons if l.coef.get(v, 0) == 0]
+        seen = set()
+        for lp, sp in pos:
+            a = lp.scale(Fraction(1) / lp.coef[v])
+            for ln, sn in neg:
+                b = ln.scale(Fraction(-1) / ln.coef[v])
+                c = a + b
+                st = sp or sn
+                if c.is_const():
+                    if (st and not c.const < 0) or (not st and not c.const <= 0):
+                        return False
+                    continue
+                k = (c.key(), st)
+                if k not in seen:
+                    seen.add(k)
+                    rest.append((c, st))
+        cons = rest
+        if len(cons) > 3000:
+            return True  # give up pruning (sound: keeps the state)
     return True
+
+
+def feasible(atoms: List[Tuple[str, Lin]], ranks: List[int], side=()) -> bool:
+    cons, eqs = order_constraints(atoms, ranks)
+    return fm_feasible(cons + list(side), eqs)
 
 
 # --------------------------------------------------------------------------- interpreter
@@ -454,8 +551,11 @@ class Interp:
             return r if isinstance(op, ast.Eq) else not r
         # ordering
         if isinstance(a, (Lin, int, float, Fraction)) and isinstance(b, (Lin, int, float, Fraction)) and not isinstance(a, bool) and not isinstance(b, bool):
-            s = self.sign(self.num(a), self.num(b), node)
-            return {ast.Lt: s < 0, ast.LtE: s <= 0, ast.Gt: s > 0, ast.GtE: s >= 0}[type(op)]
+            ss = self.state.signs(self.num(a) - self.num(b))
+            truths = {{ast.Lt: s < 0, ast.LtE: s <= 0, ast.Gt: s > 0, ast.GtE: s >= 0}[type(op)] for s in ss}
+            if len(truths) != 1:
+                raise Undecided("comparison %s of %r and %r is not decided by the abstract state%s" % (type(op).__name__, a, b, (" at " + norm(node)[:60]) if node is not None else ""))
+            return truths.pop()
         if isinstance(a, Tup) and isinstance(b, Tup):
             c = self.tuple_cmp(a, b, node)
             return {ast.Lt: c < 0, ast.LtE: c <= 0, ast.Gt: c > 0, ast.GtE: c >= 0}[type(op)]
@@ -474,7 +574,7 @@ class Interp:
                 continue
             if isinstance(x, str) and isinstance(y, str):
                 return -1 if x < y else 1
-            raise Undecided("lexicographic comparison reaches labels %r / %r" % (x, y))
+            raise DontCare("lexicographic comparison reaches labels %r / %r" % (x, y))
         return (len(a.items) > len(b.items)) - (len(a.items) < len(b.items))
 
     def _identical(self, a, b):
@@ -486,7 +586,12 @@ class Interp:
         if isinstance(a, bool) or isinstance(b, bool) or a is None or b is None:
             return a is b if (a is None or b is None) else a == b
         if isinstance(a, (Lin, int, float, Fraction)) and isinstance(b, (Lin, int, float, Fraction)):
-            return self.sign(self.num(a), self.num(b), node) == 0
+            ss = self.state.signs(self.num(a) - self.num(b))
+            if ss == frozenset([0]):
+                return True
+            if 0 not in ss:
+                return False
+            raise Undecided("equality of %r and %r is not decided by the abstract state" % (a, b))
         if isinstance(a, str) and isinstance(b, str):
             return a == b
         if isinstance(a, Str) or isinstance(b, Str):
@@ -1414,24 +1519,27 @@ class Interp:
                 dominated = False
                 newkeep = []
                 for y in keep:
-                    s = self.state.sign(x - y)
-                    if s is None:
-                        newkeep.append(y)
-                        continue
-                    if s == 0:
-                        dominated = True  # keep the earlier one (python returns the first)
-                        newkeep.append(y)
-                        continue
-                    worse = (s > 0) if n == "min" else (s < 0)
-                    if worse:
+                    ss = self.state.signs(x - y)
+                    # x is no better than y (ties keep the earlier one, as python does)
+                    x_not_better = ss <= (frozenset([0, 1]) if n == "min" else frozenset([0, -1]))
+                    # x is at least as good as y in every case (on a tie the two values are equal anyway)
+                    y_not_better = ss <= (frozenset([-1, 0]) if n == "min" else frozenset([1, 0]))
+                    if x_not_better:
                         dominated = True
                         newkeep.append(y)
-                    # else y is dominated by x: drop y
+                    elif y_not_better:
+                        pass  # y is dominated by x: drop y
+                    else:
+                        newkeep.append(y)
                 if not dominated:
                     newkeep.append(x)
                 keep = newkeep
             if len(keep) == 1:
-                return keep[0]
+                w = keep[0]
+                if len(lins) > 1:
+                    # exact winner, but the float value is the max/min of all rounded candidates
+                    return Lin(w.coef, w.const, (n, tuple(x.tree for x in lins)))
+                return w
             return MinMax(n, keep)
         if all(isinstance(x, Tup) for x in items):
             best = items[0]
